@@ -115,8 +115,11 @@ Build(f, m, acc) ==
   ELSE Build(f, m - 1, TLCEval([p \in Mods \X Vers |-> IF p[1] = m THEN DepsOf(f, acc, m, p[2]) ELSE acc[p]]))
 RDAll(f) == Build(f, NM, [p \in Mods \X Vers |-> Zero])
 
+\* f.tidy = FALSE gives a registry whose module files list only their direct
+\* dependencies (as published by hand or by an older tool): the result must
+\* still be a fixpoint and list minimal-version-selection versions.
 Norm(f, mn) ==
-  LET D == RDAll(f) IN
+  LET D == IF f.tidy THEN RDAll(f) ELSE [p \in Mods \X Vers |-> DepsOf(f, [q \in Mods \X Vers |-> Zero], p[1], p[2])] IN
   [mv |-> [m \in Mods |-> [v \in Vers |->
              [imps |-> SetToSeq(RawImps(f, m)),
               depv |-> D[<<m, v>>],
@@ -130,8 +133,8 @@ Init ==
   /\ \E imp \in RandomSubset(Sample, [Mods -> SUBSET Refs]),
         dv \in RandomSubset(4, [Mods \X Vers -> [Mods -> Vers]]),
         sf \in RandomSubset(3, [Mods -> Vers]),
-        mn \in RandomSubset(4, MainOpt) :
-       u = Norm([imp |-> imp, depv |-> dv, subFrom |-> sf], mn)
+        mn \in RandomSubset(14, MainOpt), td \in BOOLEAN :
+       u = Norm([imp |-> imp, depv |-> dv, subFrom |-> sf, tidy |-> td], mn)
   /\ abs = AbstractTidy(u)
 Next == UNCHANGED vars
 
